@@ -248,11 +248,10 @@ class Models:
             e = d[1]
             ok = c.st.ctx.entails_eq(e, lin.const(good))
             src = c.args[0][0].get(())
-            c.eng.oblige(c.st, c.fr, c.bb, "unwrap", c.base.rsplit("::", 2)[-2] + "::unwrap", ok,
-                         "" if ok else "discriminant not known to be %s" % ("Some" if is_opt else "Ok"))
-            ob = c.eng.obligations.get((c.fr.id, c.bb, "unwrap", c.base.rsplit("::", 2)[-2] + "::unwrap"))
-            if ob is not None and c.eng.record:
-                ob.residual = (ob.residual + " | value: " + short(src)) if not ok else ob.residual
+            ob = c.eng.oblige(c.st, c.fr, c.bb, "unwrap", c.base.rsplit("::", 2)[-2] + "::unwrap", ok,
+                              "" if ok else "discriminant not known to be %s" % ("Some" if is_opt else "Ok"))
+            if ob is not None:
+                ob.value = src
             c.st.ctx.add_eq(e, lin.const(good))
             c.set_dest(c.payload(c.st, 0, ("v", good), field0=True))
             return [c.st]
@@ -485,9 +484,11 @@ class Models:
                 ln = c.eng.read(c.st, v[1], v[2] + ("$len",))[1]
             outs = []
             s_none = c.st.fork()
+            c.mark(s_none, 0)
             c.set_dest({("$discr",): ICONST(0)}, s_none)
             outs.append(s_none)
             s_some = c.st
+            c.mark(s_some, 1)
             i = c.eng.named(("position", c.site), (0, ISIZE_MAX))
             if ln is not None:
                 s_some.ctx.add(lin.lt(lin.var(i), ln))
@@ -612,9 +613,11 @@ class Models:
             buf = c.argv(1)
             outs = []
             s_err = c.st.fork()
+            c.mark(s_err, 1)
             c.set_dest({("$discr",): ICONST(1), (("v", 1), 0): T(("app", "io_error", c.site, ()))}, s_err)
             outs.append(s_err)
             s_ok = c.st
+            c.mark(s_ok, 0)
             n = c.eng.named(("io_n", c.site, c.eng.symctr + 1), (0, ISIZE_MAX))
             c.eng.symctr += 1
             if buf[0] == "r":
@@ -630,9 +633,11 @@ class Models:
             buf = c.argv(1)
             outs = []
             s_err = c.st.fork()
+            c.mark(s_err, 1)
             c.set_dest({("$discr",): ICONST(1), (("v", 1), 0): T(("app", "io_error", c.site, ()))}, s_err)
             outs.append(s_err)
             s_ok = c.st
+            c.mark(s_ok, 0)
             n = c.eng.named(("io_n", c.site, c.eng.symctr + 1), (0, ISIZE_MAX))
             c.eng.symctr += 1
             if buf[0] == "r":
@@ -648,9 +653,11 @@ class Models:
         def from_utf8(c):
             outs = []
             s_err = c.st.fork()
+            c.mark(s_err, 1)
             c.set_dest({("$discr",): ICONST(1), (("v", 1), 0): T(("app", "utf8_error", c.site, ()))}, s_err)
             outs.append(s_err)
             s_ok = c.st
+            c.mark(s_ok, 0)
             sub = c.args[0][0]
             out = {("$discr",): ICONST(0), (("v", 0), 0): T(("app", "String::from_utf8", (sub.get((), T(("vec",))),)))}
             if ("$len",) in sub:
@@ -707,6 +714,11 @@ class Call:
         self.ev = ev
         self.site = (fr.id, bb)
         self.node = (fr.id, bb)
+
+    def mark(self, st, outcome):
+        """record which outcome of this (forking) call a state took: symbol ('outcome', site) == outcome"""
+        sym = self.eng.named(("outcome", self.site), (0, 7))
+        st.ctx.add_eq(lin.var(sym), lin.const(outcome))
 
     def argv(self, i):
         sub = self.args[i][0]
